@@ -7,7 +7,7 @@
    majority clauses are stated below in full and decided per case by a brute-force checker over
    all candidate subsets (evidence: partial). *)
 From Coq Require Import ZArith QArith List.
-From VL Require Import Prelude.PyDict Model.GetNBest Model.Convert Model.STV Proofs.STV_proofs.
+From VL Require Import Prelude.PyDict Model.GetNBest Model.Convert Model.STV Model.Quota Proofs.STV_proofs Proofs.STV_majority_proofs.
 Import ListNotations.
 
 Theorem C04_exact_count : forall cf fuel a n total seats caps acc,
@@ -19,6 +19,32 @@ Proof. exact run_complete. Qed.
 Theorem C04_last_standing : forall cf a n total seats caps el,
   next_count cf a n total seats caps = CR_all el -> seats_sum el = (n - zsum (map snd seats))%Z.
 Proof. exact next_count_all. Qed.
+
+(* the quota winner of a single-seat count: if exactly one continuing candidate holds at least the quota (every other
+   pile holds less), the count elects that candidate and the run ends with exactly that seat.  Selector form: every
+   continuing candidate capped at one seat, at least two of them; accept_quota_equal as by default. *)
+Theorem C04_single_seat_quota_winner : forall cf qf a total c t caps c2 f,
+  c_accept_equal cf = true -> c_quota cf = Some qf -> NoDup (akeys a) -> Qeq_bool total 0 = false ->
+  (0 < qf total 1%Z)%Q -> In (Some c, t) (totals a) -> (qf total 1%Z <= t)%Q ->
+  (forall k x, In (k, x) (totals a) -> k <> Some c -> (0 <= x /\ x < qf total 1%Z)%Q) ->
+  (forall k, In (Some k) (akeys a) -> dget caps k = Some 1%Z) ->
+  In (Some c2) (akeys a) /\ c2 <> c ->
+  t_seats (run cf (S f) a 1 total [] caps []) = [(c, 1%Z)] /\ t_stop (run cf (S f) a 1 total [] caps []) = None.
+Proof.
+  intros cf qf a total c t caps c2 f Hae Hqf Hnd Htot Hq Hc Hct Hoth Hcaps Hc2.
+  exact (single_seat_run cf Hae qf Hqf a Hnd total Htot Hq c t Hc Hct Hoth caps Hcaps c2 Hc2 f).
+Qed.
+
+(* majority: with the Droop quota, a candidate holding more than half of all votes (an integer number of them; every
+   other pile non-negative and, together with the winner's, at most all votes) wins the single seat at once *)
+Theorem C04_majority : forall cf a total c t zt caps c2 f,
+  c_accept_equal cf = true -> c_quota cf = Some Quota.droop -> NoDup (akeys a) -> Qeq_bool total 0 = false ->
+  In (Some c, t) (totals a) -> (t == inject_Z zt)%Q -> (total < 2 * t)%Q ->
+  (forall k x, In (k, x) (totals a) -> k <> Some c -> (0 <= x /\ x + t <= total)%Q) ->
+  (forall k, In (Some k) (akeys a) -> dget caps k = Some 1%Z) ->
+  In (Some c2) (akeys a) /\ c2 <> c ->
+  t_seats (run cf (S f) a 1 total [] caps []) = [(c, 1%Z)] /\ t_stop (run cf (S f) a 1 total [] caps []) = None.
+Proof. intros cf a total c t zt caps c2 f. exact (majority_single_seat cf a total c t zt caps c2 f). Qed.
 
 (* full statement of the solid-coalition clause (ballots without shared ranks) *)
 Definition solid_b (S : list C) (b : ballot) : bool :=
@@ -40,3 +66,5 @@ Definition C04_psc_full_statement : Prop :=
 
 Print Assumptions C04_exact_count.
 Print Assumptions C04_last_standing.
+Print Assumptions C04_single_seat_quota_winner.
+Print Assumptions C04_majority.
